@@ -118,6 +118,8 @@ InitParse ==
 SubIdx(n) == { [i \in 1..n |-> iv(i - 1)], [i \in 1..n |-> iv(0)],
                [i \in 1..n |-> iv((i - 1) % 2)], [i \in 1..n |-> iv(IF i = 1 THEN 1 ELSE 0)] }
 SubSchemas == { [BaseSchema EXCEPT !.dtype = "int64", !.checks = <<Chk("gt", <<iv(0)>>)>>],
+                (* the index component is subsampled too: uniqueness of the labels of the selected rows *)
+                [BaseSchema EXCEPT !.dtype = "int64", !.index = [BaseIndexS EXCEPT !.unique = TRUE]],
                 [BaseSchema EXCEPT !.dtype = "int64", !.unique = TRUE],
                 [BaseSchema EXCEPT !.dtype = "float64", !.unique = TRUE, !.checks = <<Chk("gt", <<iv(0)>>)>>] }
 NoSample == <<0, 0, 0, <<>>>>
